@@ -7,7 +7,7 @@ from typing import Dict, List, Optional, Set, Tuple
 from .ctx import Ctx
 from .model import AnalysisError, ClassInfo, FunctionInfo
 from .report import RuleResult
-from .terms import (Attr, Call, ClassRef, Const, EnumMember, Evaluator, Ext, FuncRef, Op, Outcome, Sub, Sym, Term,
+from .terms import (alternatives, Attr, Call, ClassRef, Const, EnumMember, Evaluator, Ext, FuncRef, Op, Outcome, Sub, Sym, Term,
                     default_inline, guards_repr, norm_guards, walk)
 
 
@@ -97,13 +97,36 @@ def C1(ctx: Ctx) -> RuleResult:
         r.fail('main:handlers', f'no handler for Exception: a sanity/type error would escape as a traceback; handled={sorted(handled)}', fi.where, 'Exception', sorted(handled))
     # lexical: every parse_* call in main sits in the body of a try with a broad handler
     n_calls = 0
-    for node in ast.walk(fi.node):
-        if isinstance(node, ast.Call) and isinstance(node.func, ast.Name) and node.func.id.startswith('parse_') and node.func.id != 'parse_arguments':
-            n_calls += 1
-            if not _inside_broad_try(fi.node, node):
-                r.fail(f'main:{node.func.id}:unguarded', f'{node.func.id}() is called outside a try with an Exception handler', f'{fi.module.relpath}:{node.lineno}')
-            else:
-                r.ok(f'{node.func.id}() inside try/except Exception')
+    mod = fi.module
+    reach = [fi]
+    sites: Dict[str, List] = {}
+    todo = [fi]
+    while todo:
+        f0 = todo.pop()
+        for node in ast.walk(f0.node):
+            if isinstance(node, ast.Call) and isinstance(node.func, ast.Name) and node.func.id in mod.functions and node.func.id != f0.name:
+                g = mod.functions[node.func.id]
+                sites.setdefault(g.name, []).append((f0, node))
+                if all(g is not x for x in reach):
+                    reach.append(g)
+                    todo.append(g)
+
+    def guarded(f0, node, depth=0) -> bool:
+        """the call is inside a try with an Exception handler, here or at every place this helper is called from"""
+        if _inside_broad_try(f0.node, node):
+            return True
+        if f0 is fi or depth > 3:
+            return False
+        callers = sites.get(f0.name, [])
+        return bool(callers) and all(guarded(f1, site, depth + 1) for f1, site in callers)
+    for f0 in reach:
+        for node in ast.walk(f0.node):
+            if isinstance(node, ast.Call) and isinstance(node.func, ast.Name) and node.func.id.startswith('parse_') and node.func.id != 'parse_arguments':
+                n_calls += 1
+                if not guarded(f0, node):
+                    r.fail(f'main:{node.func.id}:unguarded', f'{node.func.id}() is called outside a try with an Exception handler', f'{f0.module.relpath}:{node.lineno}')
+                else:
+                    r.ok(f'{node.func.id}() inside try/except Exception' + ('' if f0 is fi else f' (via {f0.name})'))
     r.floor('success paths', n_ok, 2)
     r.floor('parse calls', n_calls, 1)
     return r
@@ -151,37 +174,39 @@ def C2(ctx: Ctx) -> RuleResult:
     for o in outs:
         if any(_is_except(g) is not None for g in o.guards) or o.kind != 'return':
             continue
-        res = next((v_ for v_ in (o.env or {}).values() if isinstance(v_, Call) and _parse_fn(v_) is not None), None)
+        res = next((v_ for v_ in (o.env or {}).values() if all(isinstance(x, Call) and _parse_fn(x) is not None for _, x in alternatives(v_))), None)
         if res is None:
             res = next((v_ for v_ in (o.env or {}).values() if _calls(v_, lambda c: _parse_fn(c) is not None) and not _calls(v_, lambda c: isinstance(c.func, Ext) and c.func.name in ('json.dumps',) or (isinstance(c.func, Ext) and c.func.name.endswith('asdict')))), None)
         if res is None:
             continue
-        pol = None
-        for t, p in norm_guards(o.guards):
-            if isinstance(t, Sub) and t.index == Const(dest):
-                pol = p
-            elif isinstance(t, Call) and isinstance(t.func, Attr) and t.func.name == 'get' and t.args and t.args[0] == Const(dest):
-                pol = p
-        if pol is None:
-            r.fail('main:dispatch', f'success path not guarded by the -p flag ({dest}): result = {str(res)[:120]}', fi.where)
-            continue
-        if not isinstance(res, Call) or _parse_fn(res) is None:
-            r.fail(f'main:-p={pol}', f'result is not directly the value of a parse_* call: {str(res)[:160]}', fi.where, 'parse_property(arg)' if pol else 'parse_specification(text)', str(res)[:200])
-            continue
-        fn = _parse_fn(res)
-        want = 'parse_property' if pol else 'parse_specification'
-        arg = res.args[0] if res.args else None
-        arg_is_raw = isinstance(arg, Sub) and arg.index == Const(argname)
-        reads_file = arg is not None and any(isinstance(x, Attr) and x.name == 'read_text' for x in walk(arg)) and any(isinstance(x, Sub) and x.index == Const(argname) for x in walk(arg))
-        if fn != want:
-            r.fail(f'main:-p={pol}', f'with -p {"set" if pol else "unset"} the tool calls {fn} instead of {want}', fi.where, want, fn)
-        elif pol and not arg_is_raw:
-            r.fail('main:-p=True:arg', f'parse_property is not applied to the raw argument: {str(arg)[:120]}', fi.where)
-        elif not pol and not reads_file:
-            r.fail('main:-p=False:arg', f'parse_specification is not applied to the text read from the file named by the argument: {str(arg)[:120]}', fi.where)
-        else:
-            seen[pol] += 1
-            r.ok(f'-p={pol}: {fn}({"arg" if pol else "read_text(Path(arg))"})')
+        res_all = res
+        for g2, res in alternatives(res_all):
+            pol = None
+            for t, p in norm_guards(tuple(o.guards) + tuple(g2)):
+                if isinstance(t, Sub) and t.index == Const(dest):
+                    pol = p
+                elif isinstance(t, Call) and isinstance(t.func, Attr) and t.func.name == 'get' and t.args and t.args[0] == Const(dest):
+                    pol = p
+            if pol is None:
+                r.fail('main:dispatch', f'success path not guarded by the -p flag ({dest}): result = {str(res)[:120]}', fi.where)
+                continue
+            if not isinstance(res, Call) or _parse_fn(res) is None:
+                r.fail(f'main:-p={pol}', f'result is not directly the value of a parse_* call: {str(res)[:160]}', fi.where, 'parse_property(arg)' if pol else 'parse_specification(text)', str(res)[:200])
+                continue
+            fn = _parse_fn(res)
+            want = 'parse_property' if pol else 'parse_specification'
+            arg = res.args[0] if res.args else None
+            arg_is_raw = isinstance(arg, Sub) and arg.index == Const(argname)
+            reads_file = arg is not None and any(isinstance(x, Attr) and x.name == 'read_text' for x in walk(arg)) and any(isinstance(x, Sub) and x.index == Const(argname) for x in walk(arg))
+            if fn != want:
+                r.fail(f'main:-p={pol}', f'with -p {"set" if pol else "unset"} the tool calls {fn} instead of {want}', fi.where, want, fn)
+            elif pol and not arg_is_raw:
+                r.fail('main:-p=True:arg', f'parse_property is not applied to the raw argument: {str(arg)[:120]}', fi.where)
+            elif not pol and not reads_file:
+                r.fail('main:-p=False:arg', f'parse_specification is not applied to the text read from the file named by the argument: {str(arg)[:120]}', fi.where)
+            else:
+                seen[pol] += 1
+                r.ok(f'-p={pol}: {fn}({"arg" if pol else "read_text(Path(arg))"})')
     if not seen[True] or not seen[False]:
         r.fail('main:dispatch-coverage', f'missing a success path for -p set/unset: {seen}', fi.where)
     return r
@@ -221,11 +246,12 @@ def C3(ctx: Ctx) -> RuleResult:
                     r.fail('main:json-filter', 'asdict(filter=...) drops fields: output no longer mirrors the AST field for field', fi.where)
                 an = d.kw('allow_nan')
                 src = ad.args[0] if ad.args else None
-                if src is None or _parse_fn(src) is None if isinstance(src, Call) else True:
+                leaves = [leaf for _, leaf in alternatives(src)] if src is not None else []
+                if not leaves or not all(isinstance(x, Call) and _parse_fn(x) is not None for x in leaves):
                     r.fail('main:json-source', f'asdict is not applied to the parse result: {str(src)[:100]}', fi.where)
                 else:
-                    r.ok(f'print(json.dumps(asdict({_parse_fn(src)}(..), value_serializer={ser.name if ser else "?"})))')
-    r.floor('json paths', n_json, 2)
+                    r.ok(f'print(json.dumps(asdict({"|".join(sorted({_parse_fn(x) for x in leaves}))}(..), value_serializer={ser.name if ser else "?"})))')
+    r.floor('json paths', n_json, 1)
     if ser is None:
         raise AnalysisError('C3', 'serializer hook not found')
     # the serializer itself
